@@ -413,8 +413,11 @@ def r4_notification(ctx):
         c_o = tr.operand(cargs[2])
         roots_t = {(o.kind, o.data, o.path[:-1]) for o in t_o}
         roots_c = {(o.kind, o.data, o.path[:-1]) for o in c_o}
-        names_t = {o.path[-1][2] for o in t_o if o.path}
-        names_c = {o.path[-1][2] for o in c_o if o.path}
+        def _nm(o):
+            e = o.path[-1]
+            return e[2] if e[0] == "f" and len(e) > 2 else str(e[0])
+        names_t = {_nm(o) for o in t_o if o.path}
+        names_c = {_nm(o) for o in c_o if o.path}
         ctx.check(roots_t == roots_c and names_t == {"message_tick"} and names_c == {"messages_count"},
                   "%s/confirm-args-from-one-message" % short(body.path), site_of(body, cbb),
                   "confirm() is not called with the message's own tick and count (tick<-%s count<-%s)" % (names_t, names_c))
